@@ -11,13 +11,19 @@ MR : all behaviours of one (pre-state, candidate set) group, across all configur
 Several id salts are run so that several canonical key orders of the same candidates are explored.
 """
 import os
+import zlib
 from lib import *
 
 
 def run(tier, replay=None):
     ck = Check("C01", tier)
     binp = build_harness()
-    salts = ["", "b"] if tier == "quick" else ["", "b", "c", "d", "e", "f"]
+    salts = ["", "b"] if tier == "quick" else ["", "b", "c", "d"]
+    # thorough: TLC checks the invariants on the whole model (3.2 M states per id salt); replaying all 416 k exported
+    # behaviours per salt into the real engine (4 configurations each) would take hours, so whole permutation groups
+    # (same pre-state and candidate set, every enqueue order / duplication of it) are sampled by a fixed hash rule
+    replay_target = None if tier == "quick" else 50000
+    sampling = []
     cfgs = ["MC_C01_quick.cfg", "MC_C01_repeats.cfg"] if tier == "quick" else ["MC_C01_thorough.cfg", "MC_C01_repeats.cfg"]
     cfg = cfgs
     total = nontrivial = drift = groups_n = 0
@@ -40,7 +46,14 @@ def run(tier, replay=None):
                     continue
                 if not res.lines:
                     raise ToolError(f"{one}: nothing exported")
-                cases += [c for _, c in res.lines]
+                got = [c for _, c in res.lines]
+                if replay_target and len(got) > replay_target:
+                    n = -(-len(got) // replay_target)
+                    kept = [c for c in got if zlib.crc32(json.dumps([c.get("preName"), c["order"]], sort_keys=True).encode()) % n == 0]
+                    sampling.append({"salt": salt, "cfg": one, "exported": len(got), "replayed": len(kept),
+                                     "rule": f"whole permutation groups with crc32(preName, drain order) % {n} == 0"})
+                    got = kept
+                cases += got
             runs.append((salt, cases))
     for salt, cases in runs:
         cin = write_ndjson(os.path.join(WORK, f"c01_{salt}.cases"), cases)
@@ -98,13 +111,15 @@ def run(tier, replay=None):
                          {"salt": "", "cases": [], "trace": keep})
         ck.cov["big_tick_runs"] = big_runs
     ck.cov["traces_validated_against_impl"] = total + big_runs
+    if sampling:
+        ck.cov["replay_sampling"] = sampling
     ck.cov["evaluations"] = total * 4
     ck.cov["distinct_nontrivial"] = nontrivial
     ck.cov["groups"] = groups_n
     ck.cov["model_drift_cases"] = drift
     ck.cov["rule"] = ("every enqueue sequence (order + repetition) of the bounded model %s for id salts %s, each replayed on 4 engine configurations; "
                       "non-trivial = the sequence contains a repetition or at least one candidate is rejected; sequences are distinct TLC behaviours" % (cfg, salts))
-    ck.cov["exhaustive"] = replay is None
+    ck.cov["exhaustive"] = replay is None and not sampling   # thorough replays a fixed sample of whole permutation groups
     ck.assumptions += ["bounded model (pre-states, candidate universe, MaxSeq/MaxDistinct in the cfg)", "table-driven rules with honest footprints (spec/Tick.tla Prog/DeclaredFP)",
                        "scope-hash order supplied by the harness per salt", "BLAKE3 collision-freeness for the metamorphic hash relation"]
     return ck.finish()
